@@ -79,6 +79,14 @@ Theorem C08_roundtrip_partial : forall letter digit t f,
 Proof. exact format_no_directives. Qed.
 Print Assumptions C08_roundtrip_partial.
 
+(* the round trip and idempotence for texts that are already in formatted form *)
+Theorem C08_roundtrip_on_formatted : forall letter digit t f,
+  parse_text letter digit t = ParseOk f -> format_text letter digit t f = FOk t ->
+  exists f', parse_text letter digit t = ParseOk f' /\ sem t f' = sem t f /\ gaps t f' = gaps t f /\
+             format_text letter digit t f' = FOk t.
+Proof. exact roundtrip_on_formatted. Qed.
+Print Assumptions C08_roundtrip_on_formatted.
+
 (* ---- examples ---- *)
 
 Definition ex_src : str := Eval vm_compute in
